@@ -2,6 +2,8 @@ import Chain33Model.Model.C18
 import Chain33Model.Proofs.C18
 import Chain33Model.Proofs.C18Comp
 import Chain33Model.Proofs.C18Branch
+import Chain33Model.Proofs.C18Bind
+import Chain33Model.Proofs.C18Mut
 /-!
 C18 — Transaction root is consistent, provable and binding.  Property theorems only.
 `β` is any hash domain, `nil` the value Go returns for "no hash", `H2` any two-to-one function
@@ -202,5 +204,58 @@ example :
        ([117, 115, 101, 114, 46, 112, 46, 98, 46, 99, 111, 105, 110, 115], 14)] with
      | .ok (r, cs) => some (r, cs.map (fun (c : Child Nat) => (c.start, c.count, c.hash)))
      | .panic => none) = some (644, [(0, 1, 11), (1, 2, 64), (3, 1, 14)]) := by decide
+
+/-! ### binding -/
+
+/-- `Computation` reports the list as mutated (the caller then treats the block as invalid). -/
+def Flagged [DecidableEq β] (nil : β) (H2 : β → β → β) (xs : List β) : Prop :=
+  ∃ r b, Computation nil H2 xs 1 0 = .ok (r, true, b)
+
+/-- The duplicated-tail pattern exists: repeating the last leaf of an odd-length list (of at
+least three leaves) does not change the root — this is why the `mutated` flag is needed. -/
+theorem dup_tail_same_root (nil : β) (H2 : β → β → β) (P : List β) (a : β)
+    (hP : P.length % 2 = 0) (hne : P ≠ []) :
+    getMerkleRoot nil H2 (P ++ [a, a]) = getMerkleRoot nil H2 (P ++ [a]) := by
+  have hpos : 0 < P.length := List.length_pos_iff.mpr hne
+  rw [root_pairUp nil H2 (P ++ [a, a]) (by simp), root_pairUp nil H2 (P ++ [a]) (by simp; omega),
+    pairUp_append_even H2 P _ hP, pairUp_append_even H2 P _ hP]
+  rfl
+
+/-- Completeness of the flag: whenever a list contains a duplicated sibling pair — two adjacent,
+aligned, complete subtrees with equal roots, the only way (see `binding`) two different lists get
+the same root without a hash collision — `Computation` returns `mutated = true`. -/
+theorem mutated_complete [DecidableEq β] (nil : β) (H2 : β → β → β) (xs : List β)
+    (hlen : xs.length < 2 ^ 32) (hdup : SibDup nil H2 xs) : Flagged nil H2 xs :=
+  mutated_complete' nil H2 xs 1 0 hlen (by omega) hdup
+
+/-- Binding, structural form: two non-empty lists with the same root are identical, or one of
+them contains a duplicated sibling pair (the duplicated-tail pattern), or `H2` has an explicit
+collision, or a leaf equals an inner node value (leaves and inner nodes are not domain-separated
+in merkle.go; stated explicitly, true of no known SHA-256 input). -/
+theorem binding_pattern (nil : β) (H2 : β → β → β) (xs ys : List β) (hx : xs ≠ []) (hy : ys ≠ [])
+    (h : getMerkleRoot nil H2 xs = getMerkleRoot nil H2 ys) :
+    xs = ys ∨ SibDup nil H2 xs ∨ SibDup nil H2 ys ∨ Collision H2 ∨ LeafIsInner H2 xs ∨ LeafIsInner H2 ys :=
+  binding_sem nil H2 xs ys hx hy h
+
+/-- Binding: two non-empty transaction lists (fewer than 2^32 leaves) whose roots — computed with
+any worker counts — are equal are identical, or `Computation` flags one of them as mutated, or
+there is an explicit hash collision, or a leaf equals an inner node value. -/
+theorem binding [DecidableEq β] (nil : β) (H2 : β → β → β) (xs ys : List β) (n₁ n₂ : Nat)
+    (hx : xs ≠ []) (hy : ys ≠ []) (hlx : xs.length < 2 ^ 32) (hly : ys.length < 2 ^ 32)
+    (h : GetMerkleRoot nil H2 n₁ xs = GetMerkleRoot nil H2 n₂ ys) :
+    xs = ys ∨ Flagged nil H2 xs ∨ Flagged nil H2 ys ∨ Collision H2 ∨ LeafIsInner H2 xs ∨ LeafIsInner H2 ys := by
+  rw [parallel_eq_seq, parallel_eq_seq] at h
+  rcases binding_sem nil H2 xs ys hx hy h with h1 | h1 | h1 | h1
+  · exact Or.inl h1
+  · exact Or.inr (Or.inl (mutated_complete nil H2 xs hlx h1))
+  · exact Or.inr (Or.inr (Or.inl (mutated_complete nil H2 ys hly h1)))
+  · exact Or.inr (Or.inr (Or.inr h1))
+
+/-- non-vacuity: [5,6,7] and [5,6,7,7] are different lists with the same root, and the longer one
+is flagged; the "hash" here is a toy function on `Nat`. -/
+example : getMerkleRoot (0 : Nat) (fun a b => 2 * a + 3 * b + 1) [5, 6, 7]
+      = getMerkleRoot 0 (fun a b => 2 * a + 3 * b + 1) [5, 6, 7, 7] ∧
+    Computation (0 : Nat) (fun a b => 2 * a + 3 * b + 1) [5, 6, 7, 7] 1 0 = .ok (167, true, []) ∧
+    Computation (0 : Nat) (fun a b => 2 * a + 3 * b + 1) [5, 6, 7] 1 0 = .ok (167, false, []) := by decide
 
 end C18
